@@ -46,8 +46,10 @@ class Lock:
 
 
 def _file_list():
+    """-> (tracked files, autotools bootstrap output present in REPO)"""
     tracked = subprocess.run(["git", "-C", REPO, "ls-files"], capture_output=True, text=True, check=True).stdout.split("\n")
     files = set(t for t in tracked if t and os.path.exists(os.path.join(REPO, t)))
+    extra = set()
     for base, dirs, names in os.walk(REPO):
         rel = os.path.relpath(base, REPO)
         if rel == ".":
@@ -56,23 +58,27 @@ def _file_list():
         top = rel.split("/")[0] if rel else ""
         for n in names:
             p = os.path.join(rel, n) if rel else n
+            if p in files:
+                continue
             if n in EXTRA_PATTERNS or (top in ("cfgaux", "libltdl") and not SKIP_RE.search("/" + p)):
-                files.add(p)
-    if os.path.exists(os.path.join(REPO, "SPONSORS")):
-        files.add("SPONSORS")
-    return sorted(files)
+                extra.add(p)
+    if os.path.exists(os.path.join(REPO, "SPONSORS")) and "SPONSORS" not in files:
+        extra.add("SPONSORS")
+    return sorted(files), sorted(extra)
 
 
 def sync_mirror():
     """-> True when the mirror content changed"""
     os.makedirs(MIRROR, exist_ok=True)
-    files = _file_list()
-    listing = os.path.join(BUILD, "mirror.files")
+    files, extra = _file_list()
+    listing = os.path.join(BUILD, "mirror.tracked")
     old = []
     if os.path.exists(listing):
         with open(listing) as f:
             old = f.read().split("\n")
     changed = False
+    # tracked files that disappeared from the tree disappear from the mirror; bootstrap output
+    # (configure, Makefile.in, ...) is only ever added, so a scratch worktree without it still builds
     gone = set(old) - set(files) - {""}
     for g in gone:
         p = os.path.join(MIRROR, g)
@@ -81,7 +87,10 @@ def sync_mirror():
             changed = True
     with open(listing, "w") as f:
         f.write("\n".join(files) + "\n")
-    r = subprocess.run(["rsync", "-rlpc", "-i", "--files-from=" + listing, REPO + "/", MIRROR + "/"],
+    allfiles = os.path.join(BUILD, "mirror.files")
+    with open(allfiles, "w") as f:
+        f.write("\n".join(files + extra) + "\n")
+    r = subprocess.run(["rsync", "-rlpc", "-i", "--files-from=" + allfiles, REPO + "/", MIRROR + "/"],
                        capture_output=True, text=True, check=True)
     touched = [l for l in r.stdout.split("\n") if l and not l.startswith("cd") and not l.startswith(".d")]
     if touched:
